@@ -8,10 +8,12 @@ use crate::{error::ErrorData, error::ToLocated};
 use std::f32::consts::PI;
 use std::rc::Rc;
 
-fn apply<R: RealNumberInternalTrait>(
+pub const APPLY: &str = "apply";
+
+/// (apply proc arg ... list): the procedure to call and its arguments with the final list spread
+pub fn spread_apply_arguments<R: RealNumberInternalTrait>(
     arguments: impl IntoIterator<Item = Value<R>>,
-    env: Rc<Environment<R>>,
-) -> Result<Value<R>> {
+) -> Result<(Procedure<R>, ArgVec<R>)> {
     let mut iter = arguments.into_iter();
     let proc = iter.next().unwrap().expect_procedure()?;
     let mut args = iter.collect::<ArgVec<R>>();
@@ -24,6 +26,14 @@ fn apply<R: RealNumberInternalTrait>(
         };
         args.extend(extended);
     }
+    Ok((proc, args))
+}
+
+fn apply<R: RealNumberInternalTrait>(
+    arguments: impl IntoIterator<Item = Value<R>>,
+    env: Rc<Environment<R>>,
+) -> Result<Value<R>> {
+    let (proc, args) = spread_apply_arguments(arguments)?;
     Interpreter::apply_procedure(&proc, args, &env)
 }
 
@@ -731,7 +741,7 @@ pub fn library_map<R: RealNumberInternalTrait>() -> Vec<(String, Value<R>)> {
 fn library_map_result<R: RealNumberInternalTrait>() -> Result<Vec<(String, Value<R>)>> {
     Ok(vec![
         function_mapping!(
-            "apply",
+            APPLY,
             append_variadic_param!(param_fixed!["proc"], "args"),
             apply
         ),
